@@ -200,7 +200,7 @@ async fn round(
         let mut crng = Rng::new(rng.next());
         joins.push(tokio::spawn(async move {
             for seq in 0..per_client {
-                let choice = crng.weighted(&[34, 8, 10, 8, 6, 6, 16, 6, 6]);
+                let choice = crng.weighted(&[34, 8, 10, 8, 6, 6, 16, 6, 6, 6]);
                 let (kind, target, arg): (&str, &str, String) = match choice {
                     0 => {
                         let t = *crng.pick(&["c1", "c2", "p", "q"]);
@@ -222,7 +222,9 @@ async fn round(
                                        "repo_stats", "cas_stats"]),
                           *crng.pick(&["c1", "c2", "p", "q"]), String::new()),
                     7 => ("roll_init", "c2", String::new()),
-                    _ => ("roll_activate", "c2", String::new()),
+                    8 => ("roll_activate", "c2", String::new()),
+                    // the daily snapshot job comes due
+                    _ => ("snapshots_due", "", String::new()),
                 };
                 let t0 = Instant::now();
                 let res: Result<(), String> = match kind {
@@ -255,6 +257,13 @@ async fn round(
                         .map_err(|e| e.to_string()),
                     "roll_init" => manager.ca_keyroll_init(h("c2"),
                         actor.clone()).await.map_err(|e| e.to_string()),
+                    "snapshots_due" => {
+                        krill::server::mq::TaskQueue::new(manager.storage())
+                            .and_then(|tq| tq.schedule(
+                                krill::server::mq::Task::UpdateSnapshots,
+                                krill::server::mq::now()))
+                            .map_err(|e| e.to_string())
+                    }
                     _ => manager.ca_keyroll_activate(h("c2"), actor.clone())
                         .await.map_err(|e| e.to_string()),
                 };
@@ -315,7 +324,7 @@ async fn round(
             ("roa_reject", true) => true,
             ("ca_info" | "routes_show" | "history" | "repo_stats"
              | "cas_stats" | "refresh_all" | "republish_all"
-             | "child_update", false) => true,
+             | "child_update" | "snapshots_due", false) => true,
             _ => false,
         };
         if bad {
@@ -432,8 +441,67 @@ async fn round(
         r.sample(json!({"desc": desc, "records": recs.iter().take(12)
             .collect::<Vec<_>>()}));
     }
+    // what the running instance shows, to be compared with a restarted one
+    let mut live_roas: BTreeMap<String, BTreeSet<String>> = BTreeMap::new();
+    for ca in ["p", "q", "c1", "c2"] {
+        live_roas.insert(ca.into(), manager.ca_routes_show(h(ca)).await
+            .map(|v| v.iter().map(|r| r.roa_configuration.payload.to_string())
+                .collect()).unwrap_or_default());
+    }
     drop(manager);
     let _ = tokio::task::spawn_blocking(move || pool.terminate()).await;
+    // ---- nothing acknowledged or published is lost over a restart -----------
+    if !memory {
+        let cfg2 = cfg.clone();
+        let res = tokio::task::spawn_blocking(move || {
+            kvh::util::catch(move || {
+                let w = kvh::world::World::open_raw(cfg2);
+                let files2 = w.publisher_files();
+                let mut roas2: BTreeMap<String, BTreeSet<String>> = BTreeMap::new();
+                for ca in ["p", "q", "c1", "c2"] {
+                    roas2.insert(ca.into(),
+                        w.krill.ca_manager().get_ca(&h(ca)).map(|c| {
+                            c.configured_roas().iter().map(|r| {
+                                r.roa_configuration.payload.to_string()
+                            }).collect()
+                        }).unwrap_or_default());
+                }
+                drop(w);
+                (files2, roas2)
+            })
+        }).await;
+        r.eval();
+        r.count("restart_comparisons", 1);
+        match res {
+            Ok(Ok((files2, roas2))) => {
+                let a: BTreeMap<&String, u64> = files.iter()
+                    .map(|(u, b)| (u, kvh::util::fnv(b))).collect();
+                let b: BTreeMap<&String, u64> = files2.iter()
+                    .map(|(u, b)| (u, kvh::util::fnv(b))).collect();
+                if a != b {
+                    let lost: Vec<&&String> = a.keys()
+                        .filter(|u| a.get(**u) != b.get(**u)).take(6).collect();
+                    let extra: Vec<&&String> = b.keys()
+                        .filter(|u| !a.contains_key(**u)).take(6).collect();
+                    return Some(("published-content-differs-after-restart".into(),
+                        format!("the publication server of a restarted \
+                            instance differs from the running one: missing or \
+                            different {lost:?}, extra {extra:?}"),
+                        wit(json!({}))))
+                }
+                if roas2 != live_roas {
+                    return Some(("configuration-differs-after-restart".into(),
+                        format!("running {live_roas:?} restarted {roas2:?}"),
+                        wit(json!({}))))
+                }
+            }
+            Ok(Err(p)) => {
+                return Some(("restart-panics-after-concurrency".into(), p,
+                             wit(json!({}))))
+            }
+            Err(e) => r.inconclusive(format!("restart comparison: {e}")),
+        }
+    }
     let _ = std::fs::remove_dir_all(&dir);
     None
 }
